@@ -466,6 +466,14 @@ func runHistory(lines []string) []string {
 			out = append(out, o)
 			continue
 		}
+		if !h.inconclusive && o != "bad-op" && o != "bad-handle" {
+			// white-box builds: the whole state of the tree after the call, compared with the model's state (read before
+			// the window check below, so that a dump that may have been taken after the next tick does not count)
+			var d string
+			if hh := h; withDeadline(func() { d = hx.Safe(func() string { return dumpState(hh.handles) }) }) && d != "" {
+				o += " # " + d
+			}
+		}
 		if !h.inconclusive && !h.inWindow() {
 			// this call (and everything after it) may have happened after the next tick
 			h.inconclusive = true
